@@ -23,7 +23,7 @@ RULE = ("operation histories over {place value, rest value, '+', remove-last, ba
 
 EXH_METERS = [(4, 4), (3, 4), (6, 8), (0, 0)]
 FILL_METERS = [(4, 4), (3, 4), (6, 8), (12, 8), (5, 4), (2, 2), (7, 8), (3, 8), (1, 1), (0, 0)]
-CONTENTS = ["C", ["C", "E"], ("note", "G", 4), ("nc", ["A", "C"]), ["D", ["F", 5]], None]
+CONTENTS = ["C", ["C", "E"], ("note", "G", 4), ("nc", ["A", "C"]), ["D", ["F", 5]], None, []]
 
 
 def vocab60():
@@ -89,6 +89,8 @@ def make_content(c):
 def entry_pitches(e):
     if e[2] is None:
         return None
+    if not hasattr(e[2], "notes"):
+        return ["content is a %s, not a note container" % type(e[2]).__name__]
     return sorted(pitch(n.name, n.octave) for n in e[2].notes)
 
 
@@ -312,15 +314,20 @@ def run(shard, ctx):
                     ctx.check("accept: a placement refused by an error changes nothing", refused and snapshot(bar) == before,
                               {"meter": meter, "history": hist}, before if refused else "an exception or False",
                               snapshot(bar) if refused else repr(rr), mechanism="raised-placement-changed")
-                elif r < 0.72 and meter != (0, 0):
-                    # the meter is set again on the bar as it stands (same, longer or shorter)
-                    newm = rng.choice([meter, (meter[0] + 1, meter[1]), (max(1, meter[0] - 1), meter[1]), (meter[0] * 2, meter[1] * 2), (2, 4), (6, 8)])
+                elif r < 0.72:
+                    # the meter is set again on the bar as it stands (same, longer or shorter; to and from the unbounded (0,0))
+                    if meter == (0, 0):
+                        newm = rng.choice([(3, 4), (4, 4), (6, 8), (0, 0), (2, 2)])
+                    else:
+                        newm = rng.choice([meter, (meter[0] + 1, meter[1]), (max(1, meter[0] - 1), meter[1]), (meter[0] * 2, meter[1] * 2), (2, 4),
+                                           (6, 8), (0, 0)])
                     hist.append(("set_meter", newm))
                     st, rr = ctx.call(bar.set_meter, newm)
                     if st == "ok":
                         meter = newm
                         model.meter = tuple(newm)
-                        model.length = Fraction(newm[0], newm[1])
+                        model.length = Fraction(newm[0], newm[1]) if newm[1] else Fraction(0)
+                        model.unbounded = tuple(newm) == (0, 0)
                     else:
                         ctx.check("meter: power-of-two beat units and (0,0) are accepted with length count/unit", False,
                                   {"history": hist}, None, repr(rr), mechanism="set_meter-mid-history")
